@@ -337,6 +337,15 @@ func c05FaultOnTree(m *xpath.Machine, src, listing string, ti int, res *core.Cas
 				fmt.Sprintf("callback %d (%s) failed with the sentinel, the result carries %q instead", k, failedCall, core.Trunc(o.Err, 200)))
 		case !allErr:
 			res.Fail("C05/fault/"+failedCall+"/value-with-error", in, "an accessor returned a value although the run failed")
+		default:
+			// every accessor reports the tree's error, not an unrelated internal one
+			for _, a := range [][2]string{{"GetNumResult", o.NumErr}, {"GetLiteralResult", o.StrErr}, {"GetBoolResult", o.BoolErr}, {"GetNodeSetResult", o.NodeSetErr}} {
+				res.Ev("accessor_errors_compared", 1)
+				if !strings.Contains(a[1], xpmock.ErrSentinel.Error()) {
+					res.Fail("C05/fault/"+failedCall+"/accessor-reports-another-error/"+a[0], in,
+						fmt.Sprintf("callback %d (%s) failed with the sentinel, %s reports %q", k, failedCall, a[0], core.Trunc(a[1], 200)))
+				}
+			}
 		}
 		if t.CallsAfterFailure > 0 {
 			res.Fail("C05/fault/"+failedCall+"/execution-continued-after-failure", in,
